@@ -3678,8 +3678,9 @@ func (p *parser) parsePrefix(level js_ast.L, errors *deferredErrors, flags exprF
 				}
 
 			case allowIdent:
-				if !p.lexer.HasNewlineBefore {
-					// Try to gracefully recover if "yield" is used in the wrong place
+				if !p.lexer.HasNewlineBefore && (p.allowIn || !p.lexer.IsContextualKeyword("of")) {
+					// Try to gracefully recover if "yield" is used in the wrong place.
+					// Note that "for (yield of x)" is the identifier "yield" and "of".
 					switch p.lexer.Token {
 					case js_lexer.TNull, js_lexer.TIdentifier, js_lexer.TFalse, js_lexer.TTrue,
 						js_lexer.TNumericLiteral, js_lexer.TBigIntegerLiteral, js_lexer.TStringLiteral:
